@@ -5,13 +5,14 @@ import json, os, subprocess
 V = os.path.dirname(os.path.dirname(os.path.abspath(__file__)))
 props = [json.loads(l) for l in open(os.path.join(V, "properties.jsonl"))]
 not_claimed = json.load(open(os.path.join(V, "tools", "not_claimed.json")))
+claimed = json.load(open(os.path.join(V, "tools", "claimed.json")))   # integrated and verified by the lead
 hooks = subprocess.run(["git", "-C", "/repo", "log", "--format=%H %s"], stdout=subprocess.PIPE, text=True).stdout.splitlines()
 hook_commits = [l.split()[0] for l in hooks if " verif hooks:" in " " + l]
 checks, na, engines = [], [], []
 for p in props:
     pid = p["id"]
     f = os.path.join(V, "props", pid + ".json")
-    if os.path.exists(f) and not json.load(open(f)).get("disabled"):
+    if os.path.exists(f) and pid in claimed:
         c = json.load(open(f))
         checks.append({
             "property_id": pid,
